@@ -869,7 +869,10 @@ def _vox_instances(tier):
     out = [dict(kind='surface', count=1, num_procs=2, grid=[3, 3, 2], use_cubes=False),
            dict(kind='surface', count=2, num_procs=4, grid=[2, 3, 3], use_cubes=False),
            dict(kind='surface', count=1, num_procs=4, grid=[3, 2, 3], use_cubes=True),
-           dict(kind='volume', count=1, num_procs=2, grid=[3, 3, 3], use_cubes=False)]
+           dict(kind='volume', count=1, num_procs=2, grid=[3, 3, 3], use_cubes=False),
+           # a non-default in/out padding has to reach the worker processes
+           dict(kind='volume', count=1, num_procs=2, grid=[3, 3, 3], use_cubes=False, tol='1/5'),
+           dict(kind='surface', count=1, num_procs=2, grid=[3, 3, 2], use_cubes=False, tol='1/4')]
     if tier == 'thorough':
         out += [dict(kind='surface', count=3, num_procs=8, grid=[4, 4, 4], use_cubes=False),
                 dict(kind='volume', count=2, num_procs=4, grid=[4, 3, 5], use_cubes=True)]
@@ -890,7 +893,7 @@ def _concrete_volume(ctx, k):
                       '_voxelize.is_point_inside_voxel', '_voxelize.generate_voxel_grid', '_utilities.pool_context',
                       'linalg.frange', 'linalg.vector_dot'],
           quick=lambda: _vox_instances('quick'), thorough=lambda: _vox_instances('thorough'))
-def voxelize_num_procs(ctx, kind, count, num_procs, grid, use_cubes):
+def voxelize_num_procs(ctx, kind, count, num_procs, grid, use_cubes, tol=None):
     """requires: a container of CONCRETE surfaces / volumes with a coarse evaluation grid, grid_size >= 2 per axis
        config  : voxelize(obj, grid_size=..., num_procs=N) vs the default (num_procs=1, single-process loop)
        ensures : the same voxel grid (every corner) and the same filled flags, one flag per voxel; nothing raises
@@ -911,10 +914,12 @@ def voxelize_num_procs(ctx, kind, count, num_procs, grid, use_cubes):
             c.add(_concrete_volume(ctx, k))
         return c
 
-    g0, f0 = vz.voxelize(build(), grid_size=tuple(grid), use_cubes=use_cubes)
-    g1, f1 = vz.voxelize(build(), grid_size=tuple(grid), use_cubes=use_cubes, num_procs=1)
+    # every other option of the query (here the in/out padding `tol`) must reach the workers unchanged
+    extra = {} if tol is None else {'tol': ctx.lit(Fraction(tol))}
+    g0, f0 = vz.voxelize(build(), grid_size=tuple(grid), use_cubes=use_cubes, **extra)
+    g1, f1 = vz.voxelize(build(), grid_size=tuple(grid), use_cubes=use_cubes, num_procs=1, **extra)
     gn, fn = _call(ctx, 'voxelize(num_procs=%d)' % num_procs, vz.voxelize, build(), grid_size=tuple(grid), use_cubes=use_cubes,
-                   num_procs=num_procs)
+                   num_procs=num_procs, **extra)
     ctx.check_true('pool.used_with_num_procs', stats['pools'] == count and stats['processes'] == [num_procs] * count,
                    'pools opened: %r' % (stats,))
     ctx.check_true('reference.nonempty', len(g0) >= 8 and len(f0) == len(g0) and 0 < sum(f0) <= len(f0),
